@@ -1014,7 +1014,7 @@ def generate_all_classes(spec: model.LSPModel, types: TypeData):
             types,
             f"IResponse<{get_type_name(request.result, types, spec)}>",
             [
-                f"[LSPResponse(typeof({request_name}))]",
+                f"[LSPResponse(typeof({struct.name}))]",
             ],
         )
         registration_options = get_registration_options_template(request, spec, types)
